@@ -225,9 +225,22 @@ def parser_facts(ctx, b):
                     if v is not None and nm == 'start':
                         out['I'].add(v)
     for cs in b.calls:
-        if re.search(r'str>::split_at(_mut)?$', cs.name) and len(cs.args) > 1 and op_const_bits(cs.args[1]) is not None:
-            out['I'].add(op_const_bits(cs.args[1]))
-            out['slices'].append(cs)
+        if re.search(r'str>::split_at(_mut)?$', cs.name) and len(cs.args) > 1:
+            if op_const_bits(cs.args[1]) is not None:
+                out['I'].add(op_const_bits(cs.args[1]))
+            else:
+                # `split_at(PREFIX.len())`: the length of a &str constant
+                al = cs.arg_local(1)
+                for o in (b.trace_local(al) if al is not None else []):
+                    if o[0] == 'call' and o[1].name.endswith('str>::len') and o[1].args:
+                        t_ = const_text(o[1].args[0])
+                        if t_ is None and o[1].arg_local(0) is not None:
+                            for o2 in b.trace_local(o[1].arg_local(0)):
+                                if o2[0] == 'const':
+                                    t_ = const_text(o2[2])
+                        if t_ is not None:
+                            out['I'].add(len(t_))
+            out['slices'].append(cs)     # panics off a char boundary whatever the index is
         if re.search(r'ops::Index(Mut)?<.*> for str>::index(_mut)?$', cs.name) or re.search(r'str::traits::<impl std::ops::Index', cs.name):
             out['slices'].append(cs)
     return out
